@@ -313,6 +313,18 @@ end LU
 
 end
 
+/-! ### non-vacuity: a concrete 2×2 system, `L = 1`, over `Rat` -/
+
+/-- `A = [[4, 2], [2, 3]]` (full pattern, ranks 0..3 row-major): `L = [[1, 0], [1/2, 1]]`, `U = [[4, 2], [0, 2]]`; the
+    generated program is run on garbage-filled `L`, `U` -/
+example :
+    let rows : List DRow :=
+      [ { u := [⟨some 0, 0, []⟩, ⟨some 1, 1, []⟩], lii := 0, l := [⟨some 2, 1, []⟩], uii := 0 },
+        { u := [⟨some 3, 2, [(1, 1)]⟩], lii := 2, l := [], uii := 2 } ]
+    let m := JProg.run 1 (genDoolittle (α := Rat) 1 rows) ⟨#[4, 2, 2, 3], #[9, 9, 9], #[7, 7, 7], #[], 0⟩
+    m.a1 = #[1, 1/2, 1] ∧ m.a2 = #[4, 2, 2] := by
+  decide +kernel
+
 #print axioms C18_jit_lu
 #print axioms C18_jit_lu_whole
 #print axioms C18_jit_alpha
